@@ -54,6 +54,8 @@ type srchEngine struct {
 	cnt      int // leaf evaluations since the start of the current Analyze
 	cancelAt int // 0 = never
 	cancel   context.CancelFunc
+	digest   uint64 // the table as it was when the context was cancelled
+	flipped  bool
 }
 
 func newSrchEngine(sc srchCfg) *srchEngine {
@@ -67,6 +69,7 @@ func newSrchEngine(sc srchCfg) *srchEngine {
 	cfg.Evaluate = func(c *bitboard.Constants, q *tak.Position) int64 {
 		e.cnt++
 		if e.cnt == e.cancelAt {
+			e.digest, e.flipped = ai.VerifTableDigest(e.ai), true
 			e.cancel()
 			f := ai.VerifCancelFlag(e.ai)
 			for atomic.LoadInt32(f) == 0 {
@@ -86,16 +89,19 @@ type srchResult struct {
 	v     int64
 	st    ai.Stats
 	evals int
+	// the table changed after the cancel flag was set (ttPut must refuse every write from then on)
+	tableWrittenAfterCancel bool
 }
 
 // analyze runs Analyze with the context cancelled inside the k-th leaf evaluation (k = 0: never).
 func (e *srchEngine) analyze(p *tak.Position, k int) srchResult {
 	ctx, cancel := context.WithCancel(context.Background())
-	e.cnt, e.cancelAt, e.cancel = 0, k, cancel
+	e.cnt, e.cancelAt, e.cancel, e.flipped = 0, k, cancel, false
 	pv, v, st := e.ai.Analyze(ctx, p)
 	cancel()
 	e.cancelAt = 0
-	return srchResult{pv: append([]tak.Move(nil), pv...), v: v, st: st, evals: e.cnt}
+	altered := e.flipped && ai.VerifTableDigest(e.ai) != e.digest
+	return srchResult{pv: append([]tak.Move(nil), pv...), v: v, st: st, evals: e.cnt, tableWrittenAfterCancel: altered}
 }
 
 func (e *srchEngine) analyzeAll(p *tak.Position) ([][]tak.Move, int64, ai.Stats) {
